@@ -579,7 +579,6 @@ def run_segments(case, observer=None):
                 closest('values', decl) if item['op'] == 'setValues' else
                 closest('strict', decl) if item['op'] == 'setStrict' else None)
         before = snapshot(obj) if observer else None
-        keys_before, index_before = set(obj.__dict__), list(obj.index)
         out, exc = apply_item(obj, item)
         seg = segments[-1]
         if item['op'] in READS:
@@ -588,15 +587,6 @@ def run_segments(case, observer=None):
             if item['op'] == 'addVariable' and out == 'ok':
                 decl.append(item['name'])
             seg['impl'].append(out + '|' + dump_state(obj))
-        clobbered = clobbers(item, out, keys_before, index_before)
-        if clobbered:
-            # a `__dict__` entry that belonged to something else (the container's own `_attributes` / `_strict`, or a
-            # variable's storage) has been replaced: what the object does from here on is not a container's behaviour
-            # any more — the oracle reports it, the history ends here
-            seg['impl'].pop()
-            if observer:
-                observer(obj, item, before, out, exc, decl)
-            break
         seg['items'].append(model_item(item, ids, alts))
         if observer:
             observer(obj, item, before, out, exc, decl)
